@@ -611,7 +611,7 @@ for _pid, _spec in PROPS.items():
 EXTRA_FILES = {
     "C06": ["Kanal/Props/C06Fair.lean", "Kanal/Props/C06Chan.lean", "Kanal/Props/C06Async.lean",    # eventual completion under weak fairness
             "Kanal/TieProto.lean", "Kanal/ProtoSim.lean"],
-    "C18": ["Kanal/Bridge.lean"],                                                                  # Fine read sequentially = Spec.step
+    "C18": ["Kanal/Bridge.lean", "Kanal/Bridge2.lean"],                                                                  # Fine read sequentially = Spec.step
     "C03": ["Kanal/Sections.lean", "Kanal/SpecSections.lean"],
     # translated signal.rs / mutex.rs / spin_cond conform to SigM / MutexM (TieProto), and conformance is adequate (ProtoSim)
     "C07": ["Kanal/TieProto.lean", "Kanal/ProtoSim.lean"],
